@@ -69,6 +69,25 @@ func loadProps(dir string) (map[string]*PropSpec, error) {
 	return m, nil
 }
 
+// expandGlobs replaces entries ending in '*' by the matching functions under contract.
+func expandGlobs(names []string, cs *Contracts) []string {
+	var out []string
+	for _, n := range names {
+		if !strings.HasSuffix(n, "*") {
+			out = append(out, n)
+			continue
+		}
+		pre := strings.TrimSuffix(n, "*")
+		for _, k := range cs.Order {
+			c := cs.Funcs[k]
+			if c != nil && !c.Trusted && !c.Dyn && strings.HasPrefix(k, pre) {
+				out = append(out, k)
+			}
+		}
+	}
+	return out
+}
+
 func loadFindings(dir string) ([]Finding, error) {
 	data, err := os.ReadFile(filepath.Join(dir, "known_findings.json"))
 	if err != nil {
@@ -144,6 +163,7 @@ var assumptionText = map[string]string{
 	"A-REGION":      "A-REGION: descriptors, input buffer, destination objects and scratch objects are pairwise disjoint on entry",
 	"A-KEY":         "A-KEY: defs.Type.String() together with the Go type determines the defs.Type tree (ttypes cache key injective)",
 	"A-HACK":        "A-HACK: the layout hacks of hack.go (rvWithPtr, rvPtr, rvTypePtr, rtTypePtr, updateIface, mapIter, maplen, sliceHeader.Zero) do what their comments say (frugal validates them at init); given assumed contracts",
+	"A-APPEND":      "A-APPEND: where the output buffer is treated as an abstract byte sequence, Go's append is sequence extension; its concrete reading (same array while the result fits the capacity, a fresh array otherwise; writes only into the spare capacity [ptr+len,ptr+cap) or fresh memory) is assumed at the boundary to concrete callers, and the spare capacity is assumed disjoint from the value being encoded",
 	"A-COMPOSE":     "A-COMPOSE: the step from per-function contracts to the whole-message statement is a structural induction over the descriptor tree written in DESIGN.md, not mechanised",
 	"A-WF":          "A-WF: descriptors handed to the codec satisfy wfT/wfSD/wfF as axiomatised in contracts_verif.go; the constructors (newTType, fromDefsFields, ...) are not yet proved to establish them",
 	"A-SOLVER":      "A-SOLVER: an 'unsat' answer of z3 5.1.0 / z3 4.8.12 / cvc5 1.0.3 is correct (recursive definitions are axiomatised, not define-fun-rec, after a spurious unsat was observed; every function's assumption set is checked not to be refutable on every run)",
@@ -190,6 +210,8 @@ func cmdProp(args []string) int {
 		return reportGenerationFailure(ps, *tier, seed, "contracts: "+err.Error(), t0)
 	}
 	w := NewWorld(p, cs)
+	ps.Functions = expandGlobs(ps.Functions, cs)
+	ps.UntaggedFrom = expandGlobs(ps.UntaggedFrom, cs)
 	timeout := 20000
 	all := false
 	if *tier == "thorough" {
